@@ -204,32 +204,103 @@ func hasAlloc(mb *model.Batch) bool {
 func batchSize(mb *model.Batch) (int, int) {
 	n, sz := len(mb.Ops), 0
 	for _, op := range mb.Ops {
-		sz += len(op.Key) + len(op.Val)
+		sz += len(op.Key) + len(op.Val) + 3 // + room for slack behind Alloc-built entries
 	}
 	return n, sz
 }
 
 func fillBatch(b moss.Batch, mb *model.Batch, alloc bool, unhinted bool) error {
+	// Alloc-built entries are registered in four ways, all within the
+	// documented contract (key and value are adjacent bytes that came from
+	// Alloc): exactly-sized region used at once; region with unused slack
+	// behind the value; registration deferred until after the next
+	// operation has been added; two entries carved out of one region and
+	// registered afterwards.
+	dup := map[string]int{}
 	for _, op := range mb.Ops {
+		dup[string(op.Key)]++
+	}
+	register := func(kind byte, k, v []byte) error {
+		switch kind {
+		case 'S':
+			return b.AllocSet(k, v)
+		case 'D':
+			return b.AllocDel(k)
+		case 'M':
+			return b.AllocMerge(k, v)
+		}
+		return nil
+	}
+	carve := func(buf []byte, op model.Op) (k, v []byte) {
+		vl := len(op.Val)
+		if op.Kind == 'D' {
+			vl = 0
+		}
+		copy(buf, op.Key)
+		copy(buf[len(op.Key):], op.Val[:vl])
+		return buf[:len(op.Key)], buf[len(op.Key) : len(op.Key)+vl]
+	}
+	size := func(op model.Op) int {
+		if op.Kind == 'D' {
+			return len(op.Key)
+		}
+		return len(op.Key) + len(op.Val)
+	}
+	type pend struct {
+		kind byte
+		k, v []byte
+	}
+	var deferred []pend
+	flush := func() error {
+		for _, p := range deferred {
+			if err := register(p.kind, p.k, p.v); err != nil {
+				return fmt.Errorf("op %c %q (deferred): %v", p.kind, p.k, err)
+			}
+		}
+		deferred = nil
+		return nil
+	}
+	for i := 0; i < len(mb.Ops); i++ {
+		op := mb.Ops[i]
 		useAlloc := alloc || op.Alloc
 		var err error
 		if useAlloc {
-			var buf []byte
-			buf, err = b.Alloc(len(op.Key) + len(op.Val))
-			if err != nil {
-				return fmt.Errorf("Alloc: %v", err)
+			variant := (i + len(op.Key) + len(mb.Ops)) % 4
+			if dup[string(op.Key)] > 1 {
+				variant = 0 // order among equal keys matters
 			}
-			copy(buf, op.Key)
-			copy(buf[len(op.Key):], op.Val)
-			k := buf[:len(op.Key)]
-			v := buf[len(op.Key):]
-			switch op.Kind {
-			case 'S':
-				err = b.AllocSet(k, v)
-			case 'D':
-				err = b.AllocDel(k)
-			case 'M':
-				err = b.AllocMerge(k, v)
+			var buf []byte
+			switch {
+			case variant == 3 && i+1 < len(mb.Ops) && (alloc || mb.Ops[i+1].Alloc) && dup[string(mb.Ops[i+1].Key)] == 1:
+				op2 := mb.Ops[i+1]
+				buf, err = b.Alloc(size(op) + size(op2))
+				if err != nil {
+					return fmt.Errorf("Alloc: %v", err)
+				}
+				k1, v1 := carve(buf, op)
+				k2, v2 := carve(buf[size(op):], op2)
+				if err = register(op.Kind, k1, v1); err == nil {
+					err = register(op2.Kind, k2, v2)
+				}
+				i++
+			default:
+				slack := 0
+				if variant == 1 {
+					slack = 3
+				}
+				buf, err = b.Alloc(size(op) + slack)
+				if err != nil && slack > 0 {
+					buf, err = b.Alloc(size(op)) // no room for slack
+				}
+				if err != nil {
+					return fmt.Errorf("Alloc: %v", err)
+				}
+				k, v := carve(buf, op)
+				if variant == 2 {
+					deferred = append(deferred, pend{op.Kind, k, v})
+					continue
+				}
+				err = register(op.Kind, k, v)
 			}
 		} else {
 			switch op.Kind {
@@ -244,6 +315,12 @@ func fillBatch(b moss.Batch, mb *model.Batch, alloc bool, unhinted bool) error {
 		if err != nil {
 			return fmt.Errorf("op %c %q: %v", op.Kind, op.Key, err)
 		}
+		if err := flush(); err != nil {
+			return err
+		}
+	}
+	if err := flush(); err != nil {
+		return err
 	}
 	for _, name := range mb.DelChildren {
 		if err := b.DelChildCollection(name); err != nil {
